@@ -75,15 +75,15 @@ var XProps = []XPropSpec{
 	{NS: "exif", Name: "GPSLongitude", Kind: XFloat, Field: "Exif.GPSLongitude", Menu: []string{"8.5417", "-151.2153"}},
 	{NS: "exif", Name: "GPSAltitude", Kind: XFloat, Bits: 32, Field: "Exif.GPSAltitude", Menu: []string{"408.25", "-12.5"}},
 	{NS: "aux", Name: "SerialNumber", Kind: XString, Field: "Aux.SerialNumber", Menu: []string{"SN-0042", "7"}},
-	{NS: "aux", Name: "Lens", Kind: XString, Field: "Aux.Lens", Menu: []string{"VL 24-70mm f/2.8", "L"}},
+	{NS: "aux", Name: "Lens", Kind: XString, Field: "Aux.Lens", Menu: []string{"VL 24-70mm f/2.8", "L", "  padded lens name  ", "a > b/>c"}},
 	{NS: "aux", Name: "LensInfo", Kind: XString, Field: "Aux.LensInfo", Menu: []string{"24/1 70/1 28/10 28/10"}},
 	{NS: "aux", Name: "LensID", Kind: XInt, Bits: 32, Field: "Aux.LensID", Menu: []string{"198", "4294967294"}},
 	{NS: "aux", Name: "LensSerialNumber", Kind: XString, Field: "Aux.LensSerialNumber", Menu: []string{"LSN-9"}},
 	{NS: "aux", Name: "ImageNumber", Kind: XInt, Bits: 16, Field: "Aux.ImageNumber", Menu: []string{"1234", "65535"}},
 	{NS: "aux", Name: "FlashCompensation", Kind: XBias, Field: "Aux.FlashCompensation", Menu: []string{"-2/3", "1/1"}},
 	{NS: "xmp", Name: "CreateDate", Kind: XDate, Field: "Basic.CreateDate", Menu: []string{"2023-06-15T12:34:51+09:00", "2023-06-15T12:34:51"}},
-	{NS: "xmp", Name: "CreatorTool", Kind: XString, Field: "Basic.CreatorTool", Menu: []string{"Verif Tool 1.0 (Linux)", "T"}},
-	{NS: "xmp", Name: "Label", Kind: XString, Field: "Basic.Label", Menu: []string{"Select", "R"}},
+	{NS: "xmp", Name: "CreatorTool", Kind: XString, Field: "Basic.CreatorTool", Menu: []string{"Verif Tool 1.0 (Linux)", "T", "trailing blank ", " leading blank"}},
+	{NS: "xmp", Name: "Label", Kind: XString, Field: "Basic.Label", Menu: []string{"Select", "R", " "}},
 	{NS: "xmp", Name: "MetadataDate", Kind: XDate, Field: "Basic.MetadataDate", Menu: []string{"2023-06-16T08:00:00Z", "2023-06-16T08:00:00.50"}},
 	{NS: "xmp", Name: "ModifyDate", Kind: XDate, Field: "Basic.ModifyDate", Menu: []string{"2023-06-15T12:34:56-05:00"}},
 	{NS: "xmp", Name: "Rating", Kind: XInt, Bits: 8, Field: "Basic.Rating", Menu: []string{"3", "0", "5"}},
@@ -98,7 +98,7 @@ var XProps = []XPropSpec{
 // XArrs is the table of supported array properties.
 var XArrs = []XArrSpec{
 	{NS: "dc", Name: "creator", Container: "Seq", Field: "DC.Creator", Defaults: []string{"Ada Lovelace", "Charles Babbage", "G"}},
-	{NS: "dc", Name: "subject", Container: "Bag", Field: "DC.Subject", Defaults: []string{"engine", "analytical", "k"}},
+	{NS: "dc", Name: "subject", Container: "Bag", Field: "DC.Subject", Defaults: []string{"engine", "analytical ", " k"}},
 	{NS: "dc", Name: "rights", Container: "Alt", Field: "DC.Rights", Lang: true, Defaults: []string{"(c) 2023 Verif", "all rights", "r"}},
 	{NS: "dc", Name: "title", Container: "Alt", Field: "DC.Title", Lang: true, Defaults: []string{"A Title", "Ein Titel", "t"}},
 	{NS: "dc", Name: "description", Container: "Alt", Field: "DC.Description", Lang: true, Defaults: []string{"A description of the picture", "Eine Beschreibung", "d"}},
